@@ -17,8 +17,9 @@ LEVEL_TEXT = ("Theorems (Properties/C05.v): every rejection carries one of exact
               "after any run of valid entries is a custom error (c05_duplicate_parameter / c05_duplicate_member); c05_verdict_prefix_stable (coq/Proofs/PrefixP.v dec_ext, by induction over the codec "
               "including the skipper and all element loops): a successful read and any failure other than UnexpectedEnd are unchanged by appending bytes; c05_truncation_is_invalid_cbor: for every "
               "command, every well-typed parameter value of any size and every proper prefix of its encoding, Request::deserialize answers 0x12. The error-mapping arms and status discriminants are "
-              "regenerated from /repo and compared by the kernel. Wrong-type, non-minimal and indefinite-length faults are decided by the single-fault enumeration over spec-built seeds, compared with "
-              "the extracted model and with an independent fault-class oracle.")
+              "regenerated from /repo and compared by the kernel. Reader-level fault classes are theorems too (c05_nonminimal_integer / _length, c05_eight_byte_length, c05_indefinite_length, c05_wrong_major: for every major type, value and "
+              "continuation); how such a fault inside a particular member surfaces at the request level is decided by the single-fault enumeration over spec-built seeds, compared with the extracted "
+              "model and with an independent fault-class oracle.")
 feature_sets = default_feature_sets
 
 
